@@ -7,7 +7,6 @@ toolchain go1.25.5
 require (
 	github.com/ozontech/file.d v0.0.0
 	github.com/ozontech/insane-json v0.1.9
-	go.uber.org/zap v1.27.0
 )
 
 require (
@@ -71,6 +70,7 @@ require (
 	github.com/x448/float16 v0.8.4 // indirect
 	go.uber.org/atomic v1.11.0 // indirect
 	go.uber.org/multierr v1.11.0 // indirect
+	go.uber.org/zap v1.27.0 // indirect
 	go.yaml.in/yaml/v2 v2.4.2 // indirect
 	go.yaml.in/yaml/v3 v3.0.4 // indirect
 	golang.org/x/crypto v0.48.0 // indirect
